@@ -38,6 +38,18 @@ def run(ck):
         ck.compile_props()
     else:
         ck.oblige("Props_C04.v", False, "instance obligation wf_ok failed", kind="theorem")
+    # the text layer: the quoting functions regenerated from nml.py are the reference ones (instance obligations of
+    # coq/Model/Escape.v; the round-trip theorems about them are proved in Props/C01_escape.v)
+    try:
+        from lib import escape_check
+        d = escape_check.translate(ck)
+        if d is not None:
+            ok, out = ck.coqc(ck.gen_v("Gen_Escape.v", d["coq"]))
+            ck.oblige("Gen_Escape.v:compiles", ok, out[-1500:], kind="translate")
+            if ok:
+                escape_check.instances(ck, "Inst_Escape.v", escape_check.INST_TABLES)
+    except Exception as e:  # noqa
+        ck.oblige("escape:instance-obligations", False, str(e)[-800:], kind="instance")
     # fixed point / purity on the real writer + loader
     c01.run_documents(ck, T, n=ck.n(6, 30), depth=ck.n(3, 4), prop="C04")
     # metamorphic rewriters
@@ -60,6 +72,7 @@ def run(ck):
              ["charref-cr-in-attribute", doc % '<property tag="t" value="x&#13;y"/>'],
              ["charref-cr-in-text", doc % '<notes>l1&#13;l2</notes>'],
              ["charref-newline-in-attribute", doc % '<property tag="a&#10;b" value="v"/>'],
+             ["entity-like-literal-text", doc % '<notes>x &amp;lt; y &amp;amp; z &amp;quot;q&amp;quot; &amp;#10;</notes><property tag="a &amp;lt; b &amp;amp;amp; c" value="&amp;gt;"/>'],
              ["entities-in-attribute-and-text", doc % '<notes>a &lt; b &amp;&amp; c &gt; d</notes><property tag="&quot;q&quot; &apos;a&apos; &lt;&amp;&gt;" value="v"/>']]
     out = ck.try_impl("c04_impl.py", {"order": order, "tables": tables, "cases": cases, "files": files, "seed": ck.seed, "texts": texts},
                       timeout=900, label="rewriters") or {"results": [], "probes": []}
